@@ -12,7 +12,21 @@
     algorithms. *)
 From Perf Require Import Base.Bytes Base.Sx Base.B64 Base.SxF Base.FmtPct
      Model.StatsF Model.MoreMathU Model.BenchMath Model.BenchMathSpec.
+From Perf Require Base.FmtFixed.
 Local Open Scope Z_scope.
+
+(** ** the two fixed-precision printers of the framework agree (Base/FmtPct.v,
+    written for C13, and Base/FmtFixed.v, shared): checked on every number
+    rendered in a case so that they cannot drift apart *)
+Definition fixed_agree (plus : bool) (prec : nat) (x : b64) : bool :=
+  let b := FmtFixed.fmt_fixed x prec in
+  beq (fmt_fixed plus prec x)
+      (if plus then match b with x2d :: _ | x2b :: _ => b | _ => x2b :: b end else b).
+
+Definition delta_value (old new : b64) : b64 :=
+  b64_mul (b64_sub (b64_div new old) b64_one) f_hundred.
+Definition pct_value' (c lo hi : b64) : b64 :=
+  b64_mul f_hundred (b64_max (b64_sub (b64_div hi c) b64_one) (b64_sub b64_one (b64_div lo c))).
 
 (** ** decoding *)
 Record owarn := mkOwarn { w_kind : Z; w_ge : bool; w_n : Z; w_textok : bool }.
@@ -162,6 +176,7 @@ Definition corr_summary (a : Z) (vals : list b64) (conf : b64) (obs : option osu
       && b64_same (sm_hi m) (os_hi ob) && b64_same (sm_conf m) (os_conf ob)
       && warns_match (sm_warn m) (os_warns ob)
       && beq (pct_range_string m) (os_pct ob)
+      && fixed_agree false 0 (pct_value' (sm_center m) (sm_lo m) (sm_hi m))
       (* the model's exact-branch QuantileCI agrees with direct calls of stats.QuantileCI *)
       && (if a =? 0 then
             forallb (fun '(n, ci) =>
@@ -323,7 +338,10 @@ Definition asis_close_r (r : uresult) (p : b64) : bool :=
 Definition corr_compare (a : Z) (x1 x2 : list b64) (alpha : b64) (obs : option ocompare)
            (deltas : list (b64 * b64 * bytes)) (vars : list variant) : bool :=
   match obs with
-  | None => false
+  | None =>
+      (* the implementation panicked: so must the model *)
+      let r := if a =? 0 then utest x1 x2 else UApprox in
+      match model_compare a x1 x2 alpha f_zero r with None => true | Some _ => false end
   | Some ob =>
       let r := if a =? 0 then utest x1 x2 else UApprox in
       match model_compare a x1 x2 alpha (oc_p ob) r with
@@ -332,7 +350,9 @@ Definition corr_compare (a : Z) (x1 x2 : list b64) (alpha : b64) (obs : option o
           b64_same (c_p m) (oc_p ob) && (c_n1 m =? oc_n1 ob) && (c_n2 m =? oc_n2 ob)
           && b64_same (c_alpha m) (oc_alpha ob) && warns_match (c_warn m) (oc_warns ob)
           && beq (comparison_string m) (oc_string ob)
-          && forallb (fun '(old, new, s) => beq (format_delta m old new) s) deltas
+          && forallb (fun '(old, new, s) => beq (format_delta m old new) s
+                                            && fixed_agree true 2 (delta_value old new)) deltas
+          && fixed_agree false 3 (oc_p ob)
           && (if a =? 0 then
                 (* one evaluation serves the call and its shuffled variant (same sorted samples) *)
                 asis_close_r r (oc_p ob)
@@ -449,11 +469,11 @@ Definition prop_compare (a : Z) (x1 x2 : list b64) (alpha : b64) (obs : option o
 
 (** ** direct rendering cases *)
 Definition ok_delta (p alpha old new : b64) (s : bytes) : bool :=
-  beq (format_delta (mkCmp p 0 0 alpha []) old new) s.
+  beq (format_delta (mkCmp p 0 0 alpha []) old new) s && fixed_agree true 2 (delta_value old new).
 Definition ok_pct (c lo hi : b64) (s : bytes) : bool :=
-  beq (pct_range_string (mkSummary c lo hi f_zero [])) s.
+  beq (pct_range_string (mkSummary c lo hi f_zero [])) s && fixed_agree false 0 (pct_value' c lo hi).
 Definition ok_string (p : b64) (n1 n2 : Z) (s : bytes) : bool :=
-  beq (comparison_string (mkCmp p n1 n2 f_zero [])) s.
+  beq (comparison_string (mkCmp p n1 n2 f_zero [])) s && fixed_agree false 3 p.
 
 Definition corr_ok (c : case) : bool :=
   match c with
